@@ -46,7 +46,9 @@ RULE = (
 )
 
 OBS = [0.0, 0.25, float("nan"), 5e-324, 1e300, -0.0]
-NAMEX = ["", "a", "é", "药物-长名字", "ctl", "a b "]
+# incl. a decomposed spelling (e + U+0301, distinct from the precomposed "é") and a compatibility character (ANGSTROM SIGN):
+# a loader that normalises unicode would merge / rewrite them
+NAMEX = ["", "a", "é", "药物-长名字", "ctl", "a b ", "e\u0301", "\u212b"]
 CONTROLX = ["", "ctl", "é"]
 
 BOUNDS = {
@@ -57,7 +59,8 @@ BOUNDS = {
                    "3-row screen on plates p,q,p: 4^3 vectors x 4 masks; observations=None",
         "superset": "sources: arity1 rows<=3 over S4, arity2 2 rows over S3; every non-empty sub-list",
         "holdout": "3 parents (3-4 rows), fractions 0, 0.5, 1, both hold-out functions, full choice tree",
-        "names": "1-row screens over 6^3 name triples x 3 control names; 2-row screens over all 36 ordered name pairs",
+        "names": "1-row screens over 8^3 name triples x 3 control names; 2-row screens over all 64 ordered name pairs (names incl. empty, CJK, trailing blank, decomposed and compatibility unicode)",
+        "merged": "3-4 plate screens after one in-place Plate.merge (every ordered pair), then 3 save/load cycles",
         "empty": "0 rows, arity 1..3, 2 control names, with and without a supplied mapping",
         "cycles": "screen: 2 everywhere, 3 for obsmask / names / empty; experiment space: 1 resp. 2",
         "observations": OBS,
@@ -68,6 +71,7 @@ BOUNDS = {
         "superset": "quick + sources arity1 rows<=3 over S5, arity2 2 rows over S4",
         "holdout": "quick + 2 more parents (4-5 rows), fraction 0.25",
         "names": "quick",
+        "merged": "quick",
         "empty": "quick",
         "cycles": "screen: 3 everywhere; experiment space: 2",
         "observations": OBS,
@@ -263,6 +267,9 @@ def plan(tier, seed):
             items.append({"k": "names1", "control": c, "treatment": t})
         items.append({"k": "names2", "control": c})
     items.append({"k": "empty"})
+    for c in c01.CONTROLS[:2]:
+        for rows_per in ([1, 1, 1], [2, 1, 2], [1, 2, 1, 1]):
+            items.append({"k": "merged", "control": c, "rows_per": rows_per})
     if tier == "thorough":
         screens("A9", 2, 2)
         screens("S3", 3, 2)
@@ -476,6 +483,24 @@ def _run_item(item, col, tier, tmp):
                             "sn": [y, x] if variant == 0 else [x, y], "pn": [x, x] if variant == 0 else [y, x],
                             "obs": [0.25, 0.5], "mask": [True, True] if variant == 0 else [False, False]}
                     run_case({"kind": "screen", "family": "names", "control": item["control"], "spec": spec, "cycles": 3}, col, tmp)
+        return
+    if k == "merged":
+        # screens whose plates were merged in place (Plate.merge rewrites plate names and ids of the live screen), then saved
+        names = ["p_a", "p_b", "p_c", "p_d"]
+        rows_per = item["rows_per"]
+        for i in range(len(rows_per)):
+            for j in range(len(rows_per)):
+                if i == j:
+                    continue
+                pn = [names[p] for p, r in enumerate(rows_per) for _ in range(r)]
+                n = len(pn)
+                spec = {"tn": [["a", "b"] if r % 2 else ["b", ""] for r in range(n)], "td": [[1.0, 2.0] if r % 2 else [1.0, 0.0] for r in range(n)],
+                        "sn": [f"s{r % 2}" for r in range(n)], "pn": pn, "obs": [0.1 * (r + 1) for r in range(n)], "mask": [True] * n}
+                screen = build(spec, item["control"])
+                plates = {str(p.plate_name): p for p in screen.plates}
+                plates[names[j]].merge(plates[names[i]])
+                case = {"kind": "merged", "control": item["control"], "rows_per": rows_per, "merge": [i, j], "cycles": 3}
+                round_trip(screen, 3, col, case, "merged", tmp)
         return
     if k == "empty":
         for arity in (1, 2, 3):
